@@ -269,6 +269,27 @@ func genOps(prop string, r *Rng, n int, tier string, emit func(string)) {
 				emit("reenc " + hx(f))
 			}
 		}
+		{ // deterministic boundary items of this mix (not left to chance)
+			// TWCC whose large (two-octet) deltas hold small values, through encode and through decode-encode-decode
+			for _, d := range []int64{250, 250 * 5, 250 * 255, 250 * 256, -250, 0} {
+				t := twccWithDelta(2, d)
+				emit("rt 1 " + packetTokens(t))
+				// the same packet written out by hand (not by the encoder under test)
+				b := []byte{0x8f, 205, 0, 6, 0, 0, 0, 1, 0, 0, 0, 2, 0, 3, 0, 3, 0, 0, 4, 5, 0x40, 0x03}
+				for _, q := range []int64{1, d / 250, 2} {
+					b = binary.BigEndian.AppendUint16(b, uint16(int16(q)))
+				}
+				emit("reenc " + hx(b))
+			}
+			// frames of exactly 262144 octets (length field 0xFFFF) through the datagram path
+			raw := behindHeader(r, 199, int(r.Bits(5, 5)), 262144-4)
+			binary.BigEndian.PutUint16(raw[2:], 0xFFFF)
+			rp := rtcp.RawPacket(raw)
+			emit("rt 1 " + packetTokens(&rp))
+			emit("reenc " + hx(raw))
+			rr := &rtcp.ReceiverReport{SSRC: uint32(r.U64()), Reports: []rtcp.ReceptionReport{genRRep(r, false)}, ProfileExtensions: r.Bytes(262144 - 32)}
+			emit("rt 1 " + packetTokens(rr))
+		}
 		if prop == "C09" && !thorough {
 			pf := [][2]int{{206, 4}, {205, 1}}[r.Intn(2)]
 			b := behindHeader(r, pf[0], pf[1], 65540-4)
